@@ -24,9 +24,9 @@ let cert_of_name = function
   | s -> failwith ("unknown certificate " ^ s)
 
 (* certificates for which Verify(RootCAs={SM2_CA,RSA_CA}, ServerName "localhost", 2025) returns a chain *)
-let server_trusted = [n 1; n 2; n 4; n 5]
+let server_trusted = [c_sig; c_enc; c_rsa; c_rsaauth]
 (* certificates for which Verify(ClientCAs={SM2_CA,RSA_CA}, EKU clientAuth) returns a chain *)
-let client_trusted = [n 1; n 2; n 3; n 4; n 5; n 6]
+let client_trusted = [c_sig; c_enc; c_auth; c_rsa; c_rsaauth; c_ca]
 
 (* randomness of the victim / of the peer *)
 let r_client = n 11 and r_pms = n 12 and r_sid = n 13 and r_ceph = n 14
@@ -225,7 +225,7 @@ let run_as (suite : string) (attack : string) (cfgs : string) : string =
   let cfg = parse_cfg cfgs in
   let cert = if flag cfg "cc" then Some (c_auth, k_auth) else None in
   let auth = if flag cfg "cr" then 1 else 0 in
-  let trusted = match attack with "expired" | "notyet" | "wrongname" -> [] | _ -> [n 1; n 2] in
+  let trusted = match attack with "expired" | "notyet" | "wrongname" -> [] | _ -> [c_sig; c_enc] in
   let certs = match attack with
     | "sigkey" -> [(c_sig, k_other); (c_enc, k_enc)]
     | "enckey" -> [(c_sig, k_sig); (c_enc, k_other)]
@@ -254,7 +254,7 @@ let run_as (suite : string) (attack : string) (cfgs : string) : string =
     | ("fin_bad" | "fin_label"), IHs (MFinished _) -> [IHs (MFinished (TJunk (n 10)))]
     | _ -> [i] in
   let c = c08_client ~suite ~cert ~trusted in
-  let s = c08_server ~auth ~certs ~client_trusted:[n 3] in
+  let s = c08_server ~auth ~certs ~client_trusted:[c_auth] in
   let ((_, cstat), _) = pair_run_t id_t ts c s in
   show_pstat cstat
 
@@ -264,7 +264,7 @@ let run_ac (suite : string) (attack : string) (auth : string) : string =
     | "honest_nocert" | "nocertmsg" -> None
     | "untrusted_cert" -> Some (c_uauth, k_uauth)
     | _ -> Some (c_auth, k_auth) in
-  let client_trusted = match attack with "expired_cert" -> [] | _ -> [n 3] in
+  let client_trusted = match attack with "expired_cert" -> [] | _ -> [c_auth] in
   let tc (i : input) : input list =
     match attack, i with
     | "nocertmsg", IHs (MCertificate _) -> []
@@ -277,7 +277,7 @@ let run_ac (suite : string) (attack : string) (auth : string) : string =
     | "ckx_replay", IHs (MClientKeyExchange (l, _)) -> [IHs (MClientKeyExchange (l, TEnc (TPub k_enc, TPMS (n 88))))]
     | ("fin_bad" | "fin_label"), IHs (MFinished _) -> [IHs (MFinished (TJunk (n 10)))]
     | _ -> [i] in
-  let c = { (c08_client ~suite ~cert ~trusted:[n 1; n 2]) with c_verify = false } in
+  let c = { (c08_client ~suite ~cert ~trusted:[c_sig; c_enc]) with c_verify = false } in
   let s = c08_server ~auth:(int_of_string auth) ~certs:genuine ~client_trusted in
   let (_, (_, sstat)) = pair_run_t tc id_t c s in
   show_pstat sstat
@@ -341,8 +341,8 @@ let tamper_field (name : string) (field : string) (i : input) : input list =
 
 let run_am (suite : string) (auth : string) (cc : string) (dir : string) (msg : string) (field : string) : string =
   let cert = if cc = "1" then Some (c_auth, k_auth) else None in
-  let c = c08_client ~suite ~cert ~trusted:[n 1; n 2] in
-  let s = c08_server ~auth:(int_of_string auth) ~certs:genuine ~client_trusted:[n 3] in
+  let c = c08_client ~suite ~cert ~trusted:[c_sig; c_enc] in
+  let s = c08_server ~auth:(int_of_string auth) ~certs:genuine ~client_trusted:[c_auth] in
   let t (i : input) = if is_msg msg i then tamper_field msg field i else [i] in
   let tc = if dir = "c2s" then t else id_t and ts = if dir = "s2c" then t else id_t in
   let ((cst, cstat), (sst, sstat)) = pair_run_t tc ts c s in
@@ -382,8 +382,8 @@ let run_r (victim : string) (suite : string) (cfgs : string) (chv : string) (pac
   match victim with
   | "sg" ->
     let cert = if flag cfg "cc" then Some (c_auth, k_auth) else None in
-    let ccfg = { (c08_client ~suite ~cert ~trusted:[n 1; n 2]) with c_cache = flag cfg "tk" } in
-    let scfg = { (c08_server ~auth:(int_of_string (get cfg "auth")) ~certs:genuine ~client_trusted:[n 3]) with
+    let ccfg = { (c08_client ~suite ~cert ~trusted:[c_sig; c_enc]) with c_cache = flag cfg "tk" } in
+    let scfg = { (c08_server ~auth:(int_of_string (get cfg "auth")) ~certs:genuine ~client_trusted:[c_auth]) with
                  s_tickets = flag cfg "tk" } in
     let c0 = client_init ccfg in
     (* first flight: the ClientHello, with the scripted client_version *)
@@ -403,8 +403,8 @@ let run_r (victim : string) (suite : string) (cfgs : string) (chv : string) (pac
      | st -> show_pstat st)
   | _ ->
     let cert = if flag cfg "cc" then Some (c_auth, k_auth) else None in
-    let ccfg = { (c08_client ~suite ~cert ~trusted:[n 1; n 2]) with c_cache = flag cfg "tk" } in
-    let scfg = { (c08_server ~auth:(if flag cfg "cr" then 1 else 0) ~certs:genuine ~client_trusted:[n 3]) with
+    let ccfg = { (c08_client ~suite ~cert ~trusted:[c_sig; c_enc]) with c_cache = flag cfg "tk" } in
+    let scfg = { (c08_server ~auth:(if flag cfg "cr" then 1 else 0) ~certs:genuine ~client_trusted:[c_auth]) with
                  s_tickets = flag cfg "tk" } in
     let c0 = client_init ccfg in
     let (s1, sstat1) = feed (server_step scfg) server_init PRunning (List.map to_input c0.cs_out) in
@@ -430,8 +430,8 @@ let bytes_of_string (s : string) : n list = List.init (String.length s) (fun i -
 let run_an (suite : string) (pattern : string) (servername : string) : string =
   let ok = match_hostnames (bytes_of_string pattern) (bytes_of_string servername) in
   (* both GM certificates carry the name: Verify returns a chain for them iff the name matches *)
-  let c = c08_client ~suite ~cert:None ~trusted:(if ok then [n 1; n 2] else []) in
-  let s = c08_server ~auth:0 ~certs:genuine ~client_trusted:[n 3] in
+  let c = c08_client ~suite ~cert:None ~trusted:(if ok then [c_sig; c_enc] else []) in
+  let s = c08_server ~auth:0 ~certs:genuine ~client_trusted:[c_auth] in
   let ((_, cstat), _) = pair_run_t id_t id_t c s in
   show_pstat cstat
 
